@@ -85,8 +85,9 @@ def text_bytes(s):
 
 # ---------------------------------------------------------------------------------------------- start lines
 def span_ok(exp, got):
-    """exp: [] (absent) or [off,len];  got: [off,len] with off=-1 for a NULL pointer"""
-    if exp == []:
+    """exp: [] (absent) or [off,len];  got: [off,len] with off=-1 for a NULL pointer.
+    A non-empty component must be reported at exactly its place; an absent or empty one only needs length 0."""
+    if exp == [] or exp[1] == 0:          # absent or empty component: RFC 7230 places no empty string
         return got[1] == 0
     return got[0] == exp[0] and got[1] == exp[1]
 
@@ -156,7 +157,7 @@ def header_blocks(ctx, exe, cases, fails, seen, stats, base=0):
         tails = c["tails"]
         for tail in tails:                       # GET, every terminator tail, with lookups
             lines.append("hdr %s %s" % (hexs(render(c, False, tail)), qs)); meta.append((c, False, tail))
-        tail = tails[i % len(tails)]             # the other method: verdict only
+        tail = tails[(i + ctx.seed) % len(tails)]   # the other method: verdict only
         lines.append("hdr %s" % hexs(render(c, True, tail))); meta.append((c, True, tail))
     res = common.batch_run(exe, lines, timeout=1200)
     for ln, (c, alt, tail), a in zip(lines, meta, res):
@@ -204,7 +205,7 @@ def header_blocks(ctx, exe, cases, fails, seen, stats, base=0):
             else:
                 lo, hi, ln_ = exp[0]
                 if gg[0] != 0: fails.add("http_hdr_val_get:missed-field", "query %s\n%s" % (q, det), rp)
-                elif not (gg[2] == ln_ and lo <= gg[1] <= hi):
+                elif not (gg[2] == ln_ and (lo <= gg[1] <= hi if ln_ else -1 <= gg[1] <= n)):
                     fails.add("http_hdr_val_get:wrong-value-span", "query %s\n%s" % (q, det), rp)
             ex = got["ex"]
             if "STUCK" in ex:
@@ -221,9 +222,9 @@ def header_blocks(ctx, exe, cases, fails, seen, stats, base=0):
                 fails.add("http_hdr_val_get_ex:wrong-number-of-matches", "query %s\n%s" % (q, det), rp); continue
             prev = 0
             for (lo, hi, ln_), (off, l, nxt) in zip(exp_cmp, ex):
-                if not (l == ln_ and lo <= off <= hi):
+                if not (l == ln_ and (lo <= off <= hi if ln_ else -1 <= off <= n)):
                     fails.add("http_hdr_val_get_ex:wrong-value-span", "query %s\n%s" % (q, det), rp); break
-                if not (off + l <= nxt <= n and nxt > prev):
+                if not (prev < nxt <= n):
                     fails.add("http_hdr_val_get_ex:bad-next-offset", "query %s\n%s" % (q, det), rp); break
                 prev = nxt
 
@@ -237,7 +238,8 @@ def run(ctx):
     else:
         jobs = [("GenHttpStartT/GenHttpStartT.cfg", "GenHttpStartT", "GenHttpStartT.cfg", True),
                 ("GenHttpHdr/GenHttpHdr_thoroughA.cfg", "GenHttpHdr", "GenHttpHdr_thoroughA.cfg", True),
-                ("GenHttpHdr/GenHttpHdr_thoroughB.cfg", "GenHttpHdr", "GenHttpHdr_thoroughB.cfg", True)]
+                ("GenHttpHdr/GenHttpHdr_thoroughB.cfg", "GenHttpHdr", "GenHttpHdr_thoroughB.cfg", True),
+                ("GenHttpHdr/GenHttpHdr_thoroughC.cfg", "GenHttpHdr", "GenHttpHdr_thoroughC.cfg", True)]
     box = {}
     def build():
         try:
@@ -259,6 +261,7 @@ def run(ctx):
         for act, (taken, gen) in r.coverage.items():
             k = (label.split("/")[0], act); taken_by[k] = taken_by.get(k, 0) + taken
     for k, v in taken_by.items():
+        if k[0].startswith("GenHttpStart") and k[1] == "Next": continue   # no transitions there: Init is the corpus
         if v == 0: raise common.Infra("action %s of %s never taken" % (k[1], k[0]))
 
     # ---- start lines
